@@ -355,7 +355,7 @@ def _run(prop, tier, only, jobs, seed, scratch, t0):
                    'cube': q.cubes[t['cube_idx']], 'args': c['args'], 'text': c['text'],
                    'kind': 'solver-counterexample', 'tree': digest}
             cex_records.append((rec, write_record(prop, rec)))
-        elif v == 'vacuous' and '_fixed' in q.cubes[t['cube_idx']] and q.pre:
+        elif v == 'vacuous' and '_fixed' in q.cubes[t['cube_idx']] and (q.pre or t.get('extra_pre')):
             # a split valuation that contradicts the query's own precondition: an empty cube, nothing to decide
             pq['confirmed'] += 1
             pq['empty_cubes'] = pq.get('empty_cubes', 0) + 1
